@@ -5,8 +5,11 @@ a sandbox directory under /tmp (removed afterwards).
 
 RECORDING.  While the real save() runs, the file-system primitives are wrapped FROM THE
 HARNESS (no source hook): builtins.open / io.open / _io.open, os.open + os.fdopen +
-os.write + os.close, os.replace / os.rename, os.link, os.unlink / os.remove, os.fsync /
-os.fdatasync; shutil's sendfile / copy_file_range fast paths are switched off so that
+os.write + os.close (also with dir_fd= relative to a sandbox directory descriptor, unnamed
+O_TMPFILE files and their naming through link("/proc/self/fd/N")), os.replace / os.rename,
+os.link, os.unlink / os.remove, os.fsync / os.fdatasync; every OTHER os function that is
+called with a sandbox path is reported as an operation the model lacks (metadata calls such as
+chmod / utime excepted); shutil's sendfile / copy_file_range fast paths are switched off so that
 shutil.copyfile / copy / move go through the wrapped open / write / rename.  Files opened
 for writing inside the sandbox are proxied (write / flush / close recorded).  Each operation
 is recorded twice: RAW (lexical path relative to the sandbox, per-open file id) and as a
@@ -47,7 +50,12 @@ WHAT IS ENUMERATED
     points and final state;
   * TWO SAVERS: two processes with different pids save the same file, the second is killed
     mid-save: the two recorded traces are interleaved at every operation boundary and
-    materialised (oracle only; the model has one writer per path).
+    materialised (oracle only; the model has one writer per path);
+  * SIBLING FILES: two storages of one process saving two DIFFERENT files of one directory at
+    overlapping times, interleaved the same way, with and without the process dying.
+Loads run under virtual time (time.sleep patched): a load() that waits longer than 1 s — e.g.
+for a lock left behind by a dead process — counts like one that raises.  Generation stops once
+the oracle has failing inputs or the tier's time budget is used up.
 """
 import asyncio
 import builtins
@@ -247,6 +255,7 @@ class Recorder:
         self.raw, self.words = [], []
         self.open_files = set()
         self.raw_fds = {}                 # os.open descriptors not (yet) wrapped: fd -> (fid, key)
+        self.dir_fds = {}                 # descriptors of sandbox directories (for dir_fd= arguments): fd -> path
         self.fail_write = fail_write
         self.fault_at, self.fault_errno = fault_at, fault_errno
         self.attempts, self.fault_kind = 0, None
@@ -273,6 +282,23 @@ class Recorder:
 
     def rel(self, a):
         return os.path.relpath(a, self.root)
+
+    def at(self, p, dir_fd):
+        """the path a call with dir_fd= refers to"""
+        if dir_fd is None or isinstance(p, int):
+            return p
+        base = self.dir_fds.get(dir_fd)
+        p = os.fsdecode(os.fspath(p))
+        return p if (base is None or os.path.isabs(p)) else os.path.normpath(os.path.join(base, p))
+
+    def fid_of_fd(self, n):
+        for px in list(self.open_files):
+            try:
+                if px._fh.fileno() == n:
+                    return px._fid, px._key
+            except Exception:
+                pass
+        return self.raw_fds.get(n)
 
     def tok(self, key):
         """model token of an identity path; p0 = what the settings path denotes right now"""
@@ -313,6 +339,40 @@ class Recorder:
                  (os, "close"), (os, "replace"), (os, "rename"), (os, "link"), (os, "unlink"), (os, "remove"),
                  (os, "fsync"), (os, "fdatasync")]
         self._orig = [(m, n, getattr(m, n)) for m, n in names if hasattr(m, n)]
+        # every OTHER builtin function of the os module: a call that names a sandbox path (or a
+        # sandbox directory descriptor) is an operation the model lacks — reported, never ignored —
+        # unless it only reads or only changes metadata
+        handled = {n for m, n in names if m is os} | {"getpid"}
+        harmless = {"stat", "lstat", "fstat", "access", "listdir", "scandir", "readlink", "getcwd", "getcwdb", "fspath",
+                    "fsencode", "fsdecode", "read", "pread", "readv", "lseek", "dup", "dup2", "urandom", "strerror",
+                    "pathconf", "statvfs", "getxattr", "listxattr", "chmod", "lchmod", "chown", "lchown", "utime",
+                    "get_inheritable", "set_inheritable", "get_blocking", "set_blocking", "isatty", "cpu_count",
+                    "putenv", "unsetenv", "umask", "times", "kill", "waitpid", "_exit", "register_at_fork", "pipe",
+                    "pipe2", "closerange", "device_encoding", "get_terminal_size", "sched_yield", "getppid",
+                    "fchmod", "fchown", "fstatvfs", "fpathconf"}
+        import types
+        self._generic = []
+        for n in dir(os):
+            v = getattr(os, n)
+            if n in handled or n in harmless or n.startswith("_") or not isinstance(v, types.BuiltinFunctionType):
+                continue
+
+            def make(name, real):
+                def g(*a, **k):
+                    hit = None
+                    for x in list(a) + [k.get("path"), k.get("src"), k.get("dst")]:
+                        if isinstance(x, (str, bytes, os.PathLike)):
+                            dfd = k.get("dir_fd", k.get("dst_dir_fd", k.get("src_dir_fd")))
+                            if rec.inside(rec.at(x, dfd if dfd in rec.dir_fds else None)):
+                                hit = x
+                                break
+                    if hit is not None:
+                        rec.attempt(name)
+                        rec.add(("x", "os." + name), "unknown-os." + name)
+                    return real(*a, **k)
+                return g
+            self._generic.append((n, v))
+            setattr(os, n, make(n, v))
         self._getpid = os.getpid
         if self.pid is not None:
             os.getpid = lambda: rec.pid
@@ -348,20 +408,36 @@ class Recorder:
                 rec.add(("x", "open-" + mode), "unknown-open-" + mode.replace(":", ""))
             return wrap(fh, fid, key, encoding)
 
+        O_TMPFILE = getattr(os, "O_TMPFILE", 0)
+
         def osopen(path, flags, mode=0o777, *a, **k):
-            ap = rec.inside(path) if not isinstance(path, int) else None
-            acc = flags & (os.O_WRONLY | os.O_RDWR)
-            if ap is None or not acc or k.get("dir_fd") is not None:
+            dfd = k.get("dir_fd")
+            if dfd is not None and dfd not in rec.dir_fds:
                 return os_open(path, flags, mode, *a, **k)
+            ap = rec.inside(rec.at(path, dfd)) if not isinstance(path, int) else None
+            acc = flags & (os.O_WRONLY | os.O_RDWR)
+            if ap is None:
+                return os_open(path, flags, mode, *a, **k)
+            if not acc:
+                fd = os_open(path, flags, mode, *a, **k)
+                if os.path.isdir(ap):
+                    rec.dir_fds[fd] = ap
+                return fd
             rec.attempt("open")
-            key, fid = os.path.realpath(ap), rec.new_fid()
+            fid = rec.new_fid()
             fd = os_open(path, flags, mode, *a, **k)
-            if flags & (os.O_APPEND | os.O_RDWR):
-                rec.add(("x", "os.open-%o" % flags), "unknown-os-open-%o" % flags)
-            elif flags & os.O_TRUNC:
-                rec.add(("o", fid, rec.rel(ap), True), "o:" + rec.tok(key))
+            if O_TMPFILE and (flags & O_TMPFILE) == O_TMPFILE:
+                # an unnamed file in directory `ap`; it gets a name only through link()
+                key = "<anon%d>" % fid
+                rec.add(("t", fid, rec.rel(ap)), "o:" + rec.tok(key))
             else:
-                rec.add(("o", fid, rec.rel(ap), False), "k:" + rec.tok(key))
+                key = os.path.realpath(ap)
+                if flags & (os.O_APPEND | os.O_RDWR):
+                    rec.add(("x", "os.open-%o" % flags), "unknown-os-open-%o" % flags)
+                elif flags & os.O_TRUNC:
+                    rec.add(("o", fid, rec.rel(ap), True), "o:" + rec.tok(key))
+                else:
+                    rec.add(("o", fid, rec.rel(ap), False), "k:" + rec.tok(key))
             rec.raw_fds[fd] = (fid, key)
             return fd
 
@@ -390,6 +466,7 @@ class Recorder:
             return os_write(fd, data)
 
         def osclose(fd):
+            rec.dir_fds.pop(fd, None)
             if fd in rec.raw_fds:
                 fid, key = rec.raw_fds.pop(fd)
                 rec.add(("c", fid), "c:" + rec.tok(key))
@@ -397,10 +474,29 @@ class Recorder:
 
         def mv(real, hard=False):
             def f(src, dst, *a, **k):
-                s, d = rec.inside(src), rec.inside(dst)
-                if (s is None and d is None) or k.get("src_dir_fd") is not None or k.get("dst_dir_fd") is not None:
+                sfd, dfd = k.get("src_dir_fd"), k.get("dst_dir_fd")
+                if (sfd is not None and sfd not in rec.dir_fds) or (dfd is not None and dfd not in rec.dir_fds):
                     return real(src, dst, *a, **k)
-                if os.path.lexists(src):
+                srcp, dstp = rec.at(src, sfd), rec.at(dst, dfd)
+                s, d = rec.inside(srcp), rec.inside(dstp)
+                proc = str(srcp).startswith("/proc/self/fd/") and hard
+                if s is None and d is None:
+                    return real(src, dst, *a, **k)
+                if proc and d is not None:
+                    # giving an open (unnamed) file a name
+                    hit = rec.fid_of_fd(int(str(srcp).rsplit("/", 1)[1]))
+                    rec.attempt("link")
+                    td = rec.tok(entry(d))
+                    res = real(src, dst, *a, **k)
+                    if hit is None:
+                        rec.add(("x", "link-of-unknown-fd"), "unknown-link")
+                    else:
+                        rec.add(("L", hit[0], rec.rel(d)), "r:%s:%s" % (rec.tok(hit[1]), td))
+                        for px in list(rec.open_files):
+                            if px._fid == hit[0]:
+                                px.__dict__["_key"] = entry(d)
+                    return res
+                if os.path.lexists(srcp):
                     rec.attempt("link" if hard else "rename")
                 ks = entry(s) if s else "<outside>"
                 kd = entry(d) if d else "<outside>"
@@ -419,10 +515,13 @@ class Recorder:
 
         def rm(real):
             def f(p, *a, **k):
-                ap = rec.inside(p)
-                if ap is None or k.get("dir_fd") is not None:
+                dfd = k.get("dir_fd")
+                if dfd is not None and dfd not in rec.dir_fds:
                     return real(p, *a, **k)
-                if os.path.lexists(p):
+                ap = rec.inside(rec.at(p, dfd))
+                if ap is None:
+                    return real(p, *a, **k)
+                if os.path.lexists(ap):
                     rec.attempt("unlink")
                 t = rec.tok(entry(ap))
                 res = real(p, *a, **k)
@@ -462,6 +561,8 @@ class Recorder:
     def __exit__(self, *exc):
         for m, n, v in self._orig:
             setattr(m, n, v)
+        for n, v in self._generic:
+            setattr(os, n, v)
         os.getpid = self._getpid
         for n, v in self._shutil.items():
             setattr(shutil, n, v)
@@ -502,15 +603,49 @@ def _content(storage):
     return out
 
 
+class _VirtualTime:
+    """time.sleep does not wait but advances time.monotonic()/time.time() (patched from the
+    harness): a load() that polls for something (a lock left by a dead process …) finishes at
+    once and `slept` says how long it would have waited."""
+
+    def __enter__(self):
+        import time
+        self._t = time
+        self._orig = (time.sleep, time.monotonic, time.time)
+        self.slept = 0.0
+        o_mono, o_time = time.monotonic, time.time
+
+        def sleep(dt):
+            self.slept += max(0.0, float(dt))
+
+        time.sleep = sleep
+        time.monotonic = lambda: o_mono() + self.slept
+        time.time = lambda: o_time() + self.slept
+        return self
+
+    def __exit__(self, *exc):
+        self._t.sleep, self._t.monotonic, self._t.time = self._orig
+        return False
+
+
+LOAD_WAIT_LIMIT = 1.0      # seconds a load() may wait (virtual sleep; real seconds for event-loop waits)
+
+
 def _fresh_load(loop, path):
-    """The oracle's observation: load `path` into a brand-new FileStorage."""
+    """The oracle's observation: load `path` into a brand-new FileStorage.  A load that has to
+    wait (more than LOAD_WAIT_LIMIT) counts like one that raises: the file is not usable."""
     from pyatv.storage.file_storage import FileStorage
 
     st = FileStorage(path, loop)
-    try:
-        loop.run_until_complete(st.load())
-    except Exception as e:  # observation, not a harness error
-        return ("raises", type(e).__name__)
+    with _VirtualTime() as vt:
+        try:
+            loop.run_until_complete(asyncio.wait_for(st.load(), timeout=LOAD_WAIT_LIMIT + 2.0))
+        except asyncio.TimeoutError:
+            return ("raises", "load-does-not-finish")
+        except Exception as e:  # observation, not a harness error
+            return ("raises", type(e).__name__ + (":after-waiting-%ds" % vt.slept if vt.slept > LOAD_WAIT_LIMIT else ""))
+    if vt.slept > LOAD_WAIT_LIMIT:
+        return ("raises", "load-waits-%ds" % vt.slept)
     return ("ok", _content(st))
 
 
@@ -562,6 +697,11 @@ class _Replayer:
             else:
                 self.fds[fid] = os.fdopen(os.open(self.p(rel), os.O_WRONLY | os.O_CREAT, 0o600), "wb", buffering=0)
             self.pend[fid] = b""
+        elif k == "t":
+            self.fds[op[1]] = os.fdopen(os.open(self.p(op[2]), os.O_TMPFILE | os.O_WRONLY, 0o644), "wb", buffering=0)
+            self.pend[op[1]] = b""
+        elif k == "L":
+            os.link("/proc/self/fd/%d" % self.fds[op[1]].fileno(), self.p(op[2]), follow_symlinks=True)
         elif k == "w":
             self.pend[op[1]] = self.pend.get(op[1], b"") + op[2]
         elif k in ("f", "c"):
@@ -827,7 +967,9 @@ def run_scenario(ctx, loop, sc, full_prefixes, lean_jobs, want_states=False):
                 else:
                     row.setdefault(0, content)
                 if obs not in (("ok", content_old), ("ok", content_new)):
-                    if obs[0] == "raises":
+                    if obs[0] == "raises" and ("waiting" in obs[1] or obs[1].startswith("load-")):
+                        sig = "save-crash:load-blocked"        # the file may be intact, but load() waits / gives up (stale lock …)
+                    elif obs[0] == "raises":
                         sig = "save-crash:%s:load-raises" % ("empty-file" if content == b"" else "truncated-file" if content is not None and final_target is not None and len(content) < len(final_target) and final_target.startswith(content) else "damaged-file")
                     else:
                         sig = "save-crash:loads-neither-old-nor-new"
@@ -914,6 +1056,8 @@ def with_faults(ctx, loop, sc, full, jobs, want_states=False):
         for k in sorted({0, 1, n // 2, n - 1} & set(range(max(n, 1)))):
             run_scenario(ctx, loop, dict(sc, mode="short:%d:%d" % (j, k)), False, jobs)
     for j in range(res["n_ops"]):
+        if len(ctx.failures) >= 40:
+            break
         first = dict(sc, mode="fault:%d:16" % j)
         jobs_before = len(jobs)
         run_scenario(ctx, loop, first, False, jobs)
@@ -923,13 +1067,20 @@ def with_faults(ctx, loop, sc, full, jobs, want_states=False):
     return res
 
 
-def record_save(loop, root, sub, kind, old_bytes, new_devs, pid):
+def record_save(loop, root, sub, kind, old_bytes, new_devs, pid, other=None):
     """one real save() of `new_devs` over the old file, by a process that sees `pid`:
     (raw trace, canonical new content, exception class or None)"""
     from pyatv.storage.file_storage import FileStorage
 
     box = os.path.join(root, sub)
     given, cwd, abs_settings = make_layout(box, kind, old_bytes, {})
+    if other:
+        # a second settings file in the same directory
+        given = abs_settings = os.path.join(os.path.dirname(abs_settings), other)
+        cwd = None
+        if old_bytes is not None:
+            with open(abs_settings, "wb") as f:
+                f.write(old_bytes)
     cwd0 = os.getcwd()
     try:
         if cwd:
@@ -1018,6 +1169,74 @@ def concurrent_savers(ctx, loop, sc, new_b, only=None):
         shutil.rmtree(root, ignore_errors=True)
 
 
+def sibling_savers(ctx, loop, sc, new_b, only=None):
+    """Two FileStorage objects of ONE process for two DIFFERENT settings files in the same
+    directory save at overlapping times (save() runs in executor threads); the process may be
+    killed.  The two really recorded traces are interleaved at every operation boundary: A runs
+    i operations, B runs j operations (all of them, or is cut off there with k bytes of unflushed
+    data persisted), A runs to the end.  Each file must load and hold ITS old or ITS new content."""
+    root = tempfile.mkdtemp(prefix="verif-c15-", dir="/tmp")
+    other = "other.conf"
+    try:
+        old_bytes = None if sc.get("old_hex") is None else bytes.fromhex(sc["old_hex"])
+        ra = record_save(loop, root, "A", "plain", old_bytes, sc["new"], None)
+        rb = record_save(loop, root, "B", "plain", old_bytes, new_b, None, other=other)
+        if ra is None or rb is None or ra[2] or rb[2] or any(op[0] == "x" for op in ra[0] + rb[0]):
+            ctx.note("sibling-savers:skipped")
+            return
+        ta = ra[0]
+        tb = [((op[0], op[1] + 1000) + tuple(op[2:])) if op[0] in "owfsc" else op for op in rb[0]]
+        extras = {} if old_bytes is None else {os.path.join("live", other): old_bytes}
+        box0 = os.path.join(root, "old")
+        _g, _c, abs0 = make_layout(box0, "plain", old_bytes, extras)
+        content_old = _fresh_load(loop, abs0)[1]
+        ok_a = [("ok", content_old), ("ok", ra[1])]
+        ok_b = [("ok", content_old), ("ok", rb[1])]
+        n = 0
+        for i in range(len(ta) + 1):
+            for j in range(1, len(tb) + 1):
+                for k in ((0, 1, 40) if j < len(tb) else (None,)):
+                    if only is not None and [i, j, k] != only:
+                        continue
+                    if len(ctx.failures) >= 40 and only is None:
+                        return
+                    n += 1
+                    r = _Replayer(os.path.join(root, "x%d" % n), "plain", old_bytes, extras)
+                    try:
+                        for op in ta[:i]:
+                            r.step(op)
+                        for op in tb[:j]:
+                            r.step(op)
+                        dead = k is not None
+                        if dead:        # the process dies here: nothing of A's or B's buffers survives beyond k bytes of B's
+                            for fid in list(r.pend):
+                                r._persist(fid, k if fid >= 1000 else 0)
+                        else:
+                            for op in ta[i:]:
+                                try:
+                                    r.step(op)
+                                except OSError:
+                                    break
+                    finally:
+                        r.close_all()
+                    obs_a = _fresh_load(loop, r.settings)
+                    obs_b = _fresh_load(loop, os.path.join(os.path.dirname(r.settings), other))
+                    shutil.rmtree(r.root, ignore_errors=True)
+                    ctx.case(["siblings", sc["pair"], i, j, k], True)
+                    ctx.note("sibling-savers:interleaving")
+                    for which, obs, allowed in (("first", obs_a, ok_a), ("second", obs_b, ok_b)):
+                        if obs not in allowed:
+                            ctx.fail("sibling-savers:%s-file:%s" % (which, "load-raises" if obs[0] == "raises" else "neither-old-nor-new"),
+                                     {"pair": sc["pair"], "old_hex": sc.get("old_hex"), "new": sc["new"], "new_b": new_b, "siblings": [i, j, k]},
+                                     obs, "each settings file loads and holds its own complete old or new content",
+                                     "two storages of one process save two different files of one directory at overlapping times (first after "
+                                     "%d of %d operations, second after %d of %d%s): the %s file afterwards %s"
+                                     % (i, len(ta), j, len(tb), ", then the process dies" if dead else "", which,
+                                        "does not load" if obs[0] == "raises" else "holds content that is neither its old nor its new one"))
+    finally:
+        shutil.rmtree(root, ignore_errors=True)
+
+
 def second_saves(ctx, loop, sc, states, jobs, limit):
     """every distinct crash state of the first save is the initial directory of a second
     save of shorter and of longer content"""
@@ -1031,10 +1250,40 @@ def second_saves(ctx, loop, sc, states, jobs, limit):
             run_scenario(ctx, loop, sc2, False, jobs)
 
 
+class _Enough(Exception):
+    pass
+
+
+def _guard(ctx, t0):
+    """run-away protection: stop generating once the oracle has failing inputs, or when the
+    tier's time budget for generating cases is used up (noted, not a verdict)"""
+    import time
+    if len(ctx.failures) >= 40:
+        ctx.note("generation-stopped:failing-inputs-found")
+        raise _Enough()
+    if time.time() - t0 > (480 if ctx.thorough else 100):
+        ctx.note("generation-stopped:time-budget")
+        raise _Enough()
+
+
 def run(ctx, only=None):
+    import time
+    t0 = time.time()
     loop = asyncio.new_event_loop()
     jobs = []
     try:
+        _run(ctx, only, loop, jobs, t0)
+    except _Enough:
+        pass
+    finally:
+        loop.run_until_complete(loop.shutdown_default_executor())
+        loop.close()
+    if jobs:
+        compare_with_model(ctx, jobs)
+
+
+def _run(ctx, only, loop, jobs, t0):
+    if True:
         if only is not None:
             for sc in only:
                 run_scenario(ctx, loop, sc, False, jobs)
@@ -1052,10 +1301,13 @@ def run(ctx, only=None):
             by_label = {s["pair"]: s for s in scs}
             chain = {"grow", "shrink", "unicode", "nofile->nonempty"} | ({s["pair"] for s in scs if s["pair"].startswith("random")} if ctx.thorough else set())
             for idx, sc in enumerate(scs):
+                _guard(ctx, t0)
                 try:
                     res = with_faults(ctx, loop, sc, ctx.thorough and idx % 3 == 0, jobs, want_states=sc["pair"] in chain)
                     if res and sc["pair"] in chain:
                         second_saves(ctx, loop, sc, res["states"], jobs, ctx.scale(3, 8))
+                except _Enough:
+                    raise
                 except Exception as e:  # changed code must not crash the harness
                     ctx.disagree({"pair": sc["pair"]}, "harness step raised %s: %s" % (type(e).__name__, e), "n/a", where="run_scenario")
             kind_pairs = ["grow", "nofile->nonempty"] + (["shrink", "unicode", "nonempty->emptylist", "random0", "random1"] if ctx.thorough else [])
@@ -1063,6 +1315,7 @@ def run(ctx, only=None):
                 for label in kind_pairs:
                     if label not in by_label:
                         continue
+                    _guard(ctx, t0)
                     try:
                         with_faults(ctx, loop, dict(by_label[label], kind=kind), False, jobs)
                     except Exception as e:
@@ -1072,21 +1325,31 @@ def run(ctx, only=None):
                     concurrent_savers(ctx, loop, by_label[label], nb)
                 except Exception as e:
                     ctx.disagree({"pair": label, "concurrent": True}, "harness step raised %s: %s" % (type(e).__name__, e), "n/a", where="concurrent_savers")
+            for label, nb in (("grow", [_dev(9, cred="other-file")]), ("shrink", BIG[:2])):
+                _guard(ctx, t0)
+                try:
+                    sibling_savers(ctx, loop, by_label[label], nb)
+                except Exception as e:
+                    ctx.disagree({"pair": label, "siblings": True}, "harness step raised %s: %s" % (type(e).__name__, e), "n/a", where="sibling_savers")
             for kind in NAME_KINDS:
                 for label in ["grow", "shrink"]:
                     try:
                         run_scenario(ctx, loop, dict(by_label[label], kind=kind), False, jobs)
                     except Exception as e:
                         ctx.disagree({"pair": label, "kind": kind}, "harness step raised %s: %s" % (type(e).__name__, e), "n/a", where="run_scenario")
-    finally:
-        loop.run_until_complete(loop.shutdown_default_executor())
-        loop.close()
-    if jobs:
-        compare_with_model(ctx, jobs)
 
 
 def replay(ctx, failure):
     case = failure["case"]
+    if case.get("siblings"):
+        c2 = type(ctx)(ctx.prop, ctx.tier, ctx.seed, ctx.driver.driver_rel)
+        loop = asyncio.new_event_loop()
+        try:
+            sibling_savers(c2, loop, case, case["new_b"], only=case["siblings"])
+        finally:
+            loop.run_until_complete(loop.shutdown_default_executor())
+            loop.close()
+        return bool(c2.failures)
     if case.get("concurrent"):
         c2 = type(ctx)(ctx.prop, ctx.tier, ctx.seed, ctx.driver.driver_rel)
         loop = asyncio.new_event_loop()
